@@ -224,3 +224,20 @@ Section Live.
     | None => false
     end.
 End Live.
+
+(* ---- the interpreter's rendering as Python >= 3.11 really prints it: identical consecutive
+   entries folded AND an optional position-marker line under the source line of each entry
+   that is shown ------------------------------------------------------------------------------ *)
+Fixpoint fold_entries_m (last : option frame) (count : N) (fms : list (frame * option str)) : list str :=
+  match fms with
+  | [] => flush_repeat count
+  | fm :: r =>
+      let same := match last with Some l => same_place l (fst fm) | None => false end in
+      if same then
+        if 3 <? count + 1 then fold_entries_m last (count + 1) r
+        else entry_lines_m fm ++ fold_entries_m last (count + 1) r
+      else flush_repeat count ++ entry_lines_m fm ++ fold_entries_m (Some (fst fm)) 1 r
+  end.
+Definition real_lines (T : tb) (ms : list (option str)) : list str :=
+  L_header :: fold_entries_m None 0 (combine (t_frames T) ms) ++ [exc_text (t_type T) (t_msg T)].
+Definition real_text (T : tb) (ms : list (option str)) : str := join NL (real_lines T ms).
